@@ -534,7 +534,17 @@ def run_db_schedule(entries, pre, threads, preempts, opcode=False):
     final = {}
     for k in db.db:
         final[k] = entries.index(db._getItem(k, db.db[k]))
-    return {'results': results, 'sched': sched, 'final': final, 'lock_held': db.lock.held}
+    # quiescent lookups through the public interface, after every thread has finished (twice: a first
+    # lookup may itself fill a cache)
+    names = sorted(set(op[1] for op in list(pre) + [o for th in threads for o in th] if len(op) > 1))
+    post = []
+    if not db.lock.held:
+        for _ in range(2):
+            for k in names:
+                post.append((('get', k), do_db_op(db, entries, ('get', k))))
+                post.append((('in', k), do_db_op(db, entries, ('in', k))))
+        post.append((('keys',), do_db_op(db, entries, ('keys',))))
+    return {'results': results, 'sched': sched, 'final': final, 'post': post, 'lock_held': db.lock.held}
 
 
 def check_db_run(pre, threads, run):
@@ -547,6 +557,7 @@ def check_db_run(pre, threads, run):
             if r[0] == 'exc' and not (op[0] in ('get', 'del') and r[1] == 'KeyError'):
                 return ('internal-error:%s:%s' % (op[0], r[1]), 'thread %d: %s raised %s' % (i, op[0], r[1]))
     cands = []
+    stale = None
     lo = order_from_lock(sched.lock_order, threads)
     if lo is not None:
         cands.append(lo)
@@ -560,7 +571,18 @@ def check_db_run(pre, threads, run):
             per[i].append(db_spec(ref, threads[i][idx[i]]))
             idx[i] += 1
         if per == run['results'] and ref == run['final']:
-            return None
+            # quiescence: with all threads finished every lookup returns the last stored value
+            for op, r in run.get('post', []):
+                w = db_spec(ref, op)
+                if r != w:
+                    stale = stale or ('stale-entry-after-quiescence',
+                                      'after all threads finished %r gave %r, the database holds %r '
+                                      '(thread results %r)' % (op, r, w, run['results']))
+                    break
+            else:
+                return None
+    if stale:
+        return stale
     return ('not-serializable', 'results %r / final %r equal a dictionary for no sequential order'
             % (run['results'], run['final']))
 
